@@ -292,8 +292,11 @@ def commutation_states(depth):
     for L in range(depth + 1):
         for names in itertools.product(NAMES, repeat=L):
             proto, tr, rec, ref = fresh(0)
-            for nm in names:
-                proto.data_received(TOK[nm])
+            try:
+                for nm in names:
+                    proto.data_received(TOK[nm])
+            except Exception:  # noqa -- a stream that raises is reported by the stream enumeration; it is not a state
+                continue
             k = scalar_state(proto)
             if k not in states:
                 states[k] = names
@@ -309,9 +312,9 @@ def commutation_job(names):
         res = []
         for split in (False, True):
             proto, tr, rec, ref = fresh(0)
-            for nm in names:
-                proto.data_received(TOK[nm])
             try:
+                for nm in names:
+                    proto.data_received(TOK[nm])
                 if split:
                     proto.data_received(TOK[x]); proto.data_received(TOK[y])
                 else:
